@@ -18,6 +18,8 @@ from checks import c11
 LEVEL = "exploration"
 
 BINDING_FAULTS = ["unknown-property", "ill-typed-value", "duplicate-binding", "unknown-attached-type"]
+CALLBACK_FAULTS = ["callback-incompatible-parameter", "callback-surplus-parameter", "callback-unknown-signal",
+                   "callback-ill-typed-body"]
 TYPE_FAULTS = ["unknown-object-type", "invalid-object-type"]
 
 
@@ -59,9 +61,9 @@ def decorate(root):
 
 def plantable(o, is_root):
     kind = c11.KINDS[o.tag][1]
-    if kind == "sep":
-        return []          # a separator turns into a plain action as soon as it gets any binding
     fs = list(BINDING_FAULTS)
+    if kind not in ("spacer", "sep"):
+        fs += CALLBACK_FAULTS          # every other kind is a QObject: objectNameChanged(QString) exists
     if not is_root:
         fs += TYPE_FAULTS
     return fs
@@ -82,9 +84,16 @@ def plant(o, fault):
         o.add(b)
         return b
     if fault == "duplicate-binding":
-        name = {"spacer": "orientation", "layout": "spacing"}.get(kind, "toolTip")
-        val = {"spacer": "Qt.Horizontal", "layout": "9"}.get(kind, '"dup"')
+        name = {"spacer": "orientation", "layout": "spacing", "sep": "separator"}.get(kind, "toolTip")
+        val = {"spacer": "Qt.Horizontal", "layout": "9", "sep": "true"}.get(kind, '"dup"')
         b = qml.B(name, val)
+        o.add(b)
+        return b
+    if fault in CALLBACK_FAULTS:
+        b = {"callback-incompatible-parameter": qml.B("onObjectNameChanged", "function(n: int) {}"),
+             "callback-surplus-parameter": qml.B("onObjectNameChanged", "function(n: QString, m: int) {}"),
+             "callback-unknown-signal": qml.B("onZzUnknown", "{ }"),
+             "callback-ill-typed-body": qml.B("onObjectNameChanged", "{ let v: int = \"s\"; }")}[fault]
         o.add(b)
         return b
     if fault == "unknown-attached-type":
@@ -283,8 +292,22 @@ def judge(t, vd, cid, root, plants):
                 e.attrs["name"] = mask(e.attrs["name"])
         faulted_names = {mask(n) for n in faulted_names}
     d = _cmp(uf, ur, faulted_names, ids, "ui")
+    if d and len(plants) == 1 and plants[0][1] == "duplicate-binding" and \
+            c11.KINDS[obj_at(ref, plants[0][0]).tag][1] == "sep":
+        # both `separator` bindings are dropped: the action has lost its own (only) property value and is
+        # then an ordinary action - compare with the reference in which it is one
+        ref2 = ref.clone()
+        o2 = obj_at(ref2, plants[0][0])
+        o2.items = [x for x in o2.items if not (isinstance(x, qml.B) and x.name == "separator")]
+        r2 = vd.job({"id": cid + "/ref2", "source": qml.render(ref2), "modes": ["omit"]})["modes"]["omit"]
+        if r2.get("status") == "built" and not _cmp(uf, uiread.parse(r2["ui"]), faulted_names | ({o2.id} if o2.id else set()), ids, "ui"):
+            t.inc("separator_lost_its_own_value")
+            d = None
     if d:
         kinds = "+".join(sorted({f for _p, f in plants}))
+        on_sep = [f for p, f in plants if f not in TYPE_FAULTS and c11.KINDS[obj_at(ref, _ref_path(plants, p)).tag][1] == "sep"]
+        if on_sep and "addaction" in d or (on_sep and "child objects" in d):
+            kinds += ":static-separator-becomes-an-action"
         t.violation(f"non-local-change:{kinds}", dict(case, difference=d, ui=gf["ui"], reference_ui=gr["ui"]))
 
 
